@@ -1,5 +1,5 @@
 From Stam Require Import Base.Tac Model.Offset Model.Store Model.StoreExt Model.StoreObs Spec.StoreSpec
-     Proofs.StoreInv Proofs.StoreErr Props.C14.
+     Proofs.StoreInv Proofs.StoreErr Proofs.StoreSel Proofs.StoreGrow Props.C14.
 Check (C14_failed_add_frame : forall s o s',
   match o with AddRes _ _ | AddSet _ | InsData _ | Annotate _ => True | _ => False end ->
   step s o = (s', OErr) ->
@@ -10,3 +10,16 @@ Print Assumptions C14_failed_annotate_frame.
 Print Assumptions Known_C14_textselection_left_witness.
 Print Assumptions Known_C14_vocabulary_left_witness.
 Print Assumptions C14_failed_add_dataset_with_data.
+Check (C14_failed_call_only_adds : forall ops o s',
+  match o with AddRes _ _ | AddSet _ | InsData _ | Annotate _ => True | _ => False end ->
+  step (run ops) o = (s', OErr) ->
+  same_core (run ops) s' /\ ress_ext (run ops) s' /\ sets_ext (run ops) s').
+Check (C14_failed_batch_is_prefix_then_one_failure : forall l s s' n,
+  annotate_batch s l = (s', OErr, n) ->
+  exists b, nth_error l n = Some b
+  /\ (forall i bi, i < n -> nth_error l i = Some bi ->
+        exists h, snd (annotate (annotate_all s (firstn i l)) bi) = OOk h)
+  /\ annotate (annotate_all s (firstn n l)) b = (s', OErr)).
+Print Assumptions C14_failed_call_only_adds.
+Print Assumptions C14_failed_batch_is_prefix_then_one_failure.
+Print Assumptions C14_successful_batch_is_the_fold.
